@@ -19,8 +19,8 @@ P = {
    text='Deductive part: the wrapper returns the states all of whose paths satisfy g, given the assumed contract of the tableau search and the proved contracts of LNot and of the rewriting (its frame/safety obligations are counted under C07/C19). Bounded stand-in (decides): LTL.modelcheck on small structures x path formulas with <=3 temporal operators; every excluded verdict certified by a concrete lasso.', note='_build_atoms/_Tableu and the tableau theorem are not proved; reference semantics trusted'),
  'C03': dict(level='exploration', ref='3/C03', tech='contract-based deductive verification (pyvc + z3) of the fresh-label helper and - for frame/safety only - of the three functions of the reduction; what the reduction computes: run-time contract of CTLS.modelcheck against the reference semantics (bounded)',
    text='Deductive part: the label returned by _get_a_new_atomic_proposition_for is not a label of the structure; _remove_state_subformulas/_checkQuantifiedFormula keep the states, transitions and label-set objects of the structure passed in and rebuild formulas that keep the arity invariant (their frame and safety obligations are counted under C07/C19). Bounded stand-in (decides): CTLS.modelcheck on small structures x CTL* state formulas (arbitrary path formulas under A/E, quantifier nesting <=2).', note='LTL leg bounded only (C02); reference semantics trusted'),
- 'C04': dict(level='exploration', ref='3/C04', tech='relational run-time contracts over pairs of calls (agreement of entry points, Boolean/duality/expansion laws); no oracle',
-   text=B + 'agreement of CTL/LTL/CTL* entry points and text/object, and 16 semantic laws, on small and random structures.', note='needs no reference implementation; bounded scope'),
+ 'C04': dict(level='exploration', ref='3/C04', tech='relational run-time contracts over pairs of calls (agreement of entry points, Boolean/duality/expansion laws); no oracle; the clause "text or object gives the same set" also as a corollary of the text-leg contracts proved by pyvc + z3 (obligations owned by C01/C02/C03/C07/C19)',
+   text=B + 'agreement of CTL/LTL/CTL* entry points and text/object, and 16 semantic laws, on small and random structures. Deductive counterpart only for text-vs-object: each modelcheck on a string satisfies the object-leg statement at the formula object the default parser returns.', note='needs no reference implementation; bounded scope'),
  'C05': dict(level='exploration', ref='3/C05', tech='contract-based deductive verification (pyvc + z3) of LNot, the 12 CTL* get_equivalent_restricted_formula bodies, the CTL-specific bodies CTL.A / CTL.E and the shortcuts EX/EG/EU against the documented path semantics (axioms over abstract evaluation points) and the documented restricted syntaxes of CTL*/LTL and CTL; end-to-end claim: run-time contract with equivalence decided by the reference semantics (bounded)',
    text='Deductive part: ~150 obligations (equivalence at every evaluation point, restricted alphabet, no double negation, loop invariants of the list-building loops) discharged for all formulas; A(f U g) and E(f R g) use the least-position principle (well-ordering, trusted) through one cut lemma each; CTL receivers are assumed to satisfy the documented CTL grammar. LTL receivers (module lookup Lang.E, KF-C05-1) are not under proof. Bounded stand-in: formulas to depth 2-3; LTL equivalence over 2 atoms decided exactly on the universal 4-state structure; quantified formulas on all <=2-state structures + samples.', note='reference semantics trusted; formulas to depth 2-3'),
  'C06': dict(level='exploration', ref='3/C06', tech='metamorphic run-time contracts (renaming, reordering, atom renaming, unreachable states) + fresh interpreters per PYTHONHASHSEED',
@@ -102,7 +102,7 @@ def main():
 
 
 NA = {}
-PYVC = {'C01', 'C02', 'C03', 'C05', 'C07', 'C10', 'C13', 'C14', 'C15', 'C16', 'C17', 'C19'}
+PYVC = {'C01', 'C02', 'C03', 'C04', 'C05', 'C07', 'C10', 'C13', 'C14', 'C15', 'C16', 'C17', 'C19'}
 
 if __name__ == '__main__':
     main()
